@@ -138,7 +138,7 @@ PROPS = {
                         "Go memory model: a data race is two conflicting non-atomic accesses not ordered by a common mutex"],
     },
     "C16": {
-        "proof_files": ["Proofs/ListenFacts.v", "Mutants/ListenRace.v"],
+        "proof_files": ["Proofs/ListenFacts.v", "Mutants/ListenRace.v", "Proofs/StartFacts.v"],
         "runs": [{"engine": "listen", "args": [], "n_quick": 120, "n_thorough": 5000, "netns": True},
                  {"engine": "daemon", "args": ["-mode", "bind"], "n_quick": 25, "n_thorough": 300, "netns": True}],
         "trivial_tags": [],
